@@ -5101,21 +5101,14 @@ impl BytecodeVM {
                 Ok(OpResult::Continue)
             }
 
-            // NOTE: review
-            Op::CreateRestArray { dst, start_index } => {
-                // Create an array from remaining iterator elements
-                // This is used for rest patterns like [...rest] = arr
-                // The iterator state is assumed to be in the register before this one
-                // We need to collect all remaining elements from the current iterator
-
-                // For now, this opcode is context-dependent - it needs the iterator
-                // that was being used. We'll check if there's an internal iterator in scope.
-                // This is a simplified implementation that works with the pattern compiler.
-
-                // Look for the iterator in a previous register (typically dst - 3 based on pattern)
-                // This is a heuristic - the pattern compiler allocates registers in a specific order
-                let iter_reg = dst.saturating_sub(3);
-                let iter_val = self.get_reg(iter_reg);
+            Op::CreateRestArray {
+                dst,
+                iterator,
+                start_index,
+            } => {
+                // Create an array from the remaining elements of the iterator the
+                // enclosing array pattern is consuming (rest patterns like [...rest] = arr).
+                let iter_val = self.get_reg(iterator);
 
                 let mut elements = Vec::new();
 
